@@ -1,4 +1,5 @@
 import Nstd.Json.LemmasGen
+import Nstd.Json.LemmasExact
 /-
   Property C15, the tie by TRANSLATION.  `Nstd.Generated.JsonCode` is written on every run by tools/gen_json.py
   (tools/gen_json_cxx.py: tokenizer + parser of a C++ subset + symbolic execution) from the CURRENT
@@ -140,5 +141,75 @@ theorem translated_readToken (buf : List Byte) (line : Nat) (r : List Byte) (h :
 
 example : Pos [32, 10, 116, 114, 117, 101, 44, 0] 1 [32, 10, 116, 114, 117, 101, 44, 0] := Pos.init _ (by decide)
 example : JsonCode.readToken 10 1 [32, 10, 116, 114, 117, 101, 44, 0] = .ok ⟨116, .bool true, 2, [44, 0]⟩ := by rfl
+
+/-! ## `syntaxError` translated; exactness of the error position -/
+
+/-- the translated `Json::Private::syntaxError` - the backwards walk from the error cursor to the previous CR / LF or the
+    start of the text, over the bytes IN FRONT of the cursor (`back`, nearest first) - yields errorLine = pos.line and
+    errorColumn = 1 + the number of bytes back to the line start (whether the code counts while walking or subtracts
+    two pointers) -/
+theorem translated_syntaxError (line : Nat) (back : List Byte) (f : Nat) (hf : back.length < f) :
+    JsonCode.syntaxError f line back = .ok (line, 1 + (back.takeWhile notBreak).length) :=
+  gen_syntaxError line back f hf
+
+/-- hence on every consistent position the translated code computes the model's `column` -/
+theorem translated_column (buf : List Byte) (line : Nat) (p : List Byte) (h : Pos buf line p) :
+    ∃ back, buf = back.reverse ++ p ∧ 0 ∉ back ∧
+      JsonCode.syntaxError (back.length + 1) line back = .ok (line, column buf p) := by
+  obtain ⟨q, hb, _, hq, _, _⟩ := h
+  refine ⟨q, hb, hq, ?_⟩
+  rw [gen_syntaxError line q _ (Nat.lt_succ_self _)]
+  have : buf.length - p.length = q.reverse.length := by rw [hb]; simp
+  unfold column
+  rw [this]
+  conv => rhs; rw [hb]
+  simp
+  have e : notBreak = fun c => (!c == 10 && !c == 13) := by
+    funext c; simp [notBreak]
+  rw [e]
+
+example : JsonCode.syntaxError 9 3 [120, 32, 10, 97] = .ok (3, 3) := by rfl
+
+/-- EXACTNESS of the reported position, by error class.  When `parse` reports `(l, c)` there is a cursor `p` of the buffer
+    (`buf = back.reverse ++ p`, nothing but NUL-free text in front of it) such that
+    * `(l, c)` is what the TRANSLATED `syntaxError` computes for `p` (line `l`, the walk back over `back`), and
+    * `p` is exactly one of (`ErrAt`):
+      - `tokenizer`: the cursor at which `readToken`, started at a consistent position, gives up - by
+        `tokenizer_error_cursor` that is the FIRST byte of the offending token (after the white space) for every token
+        that is not a string literal, and inside a string literal the cursor where the (translated) string loop stops;
+      - `behindToken`: a complete token was read that the grammar does not allow there; `p` is the cursor immediately
+        behind that token and `l` the line of that cursor (the code passes `pos`, not `token.pos`). -/
+theorem error_pos_exact (buf : List Byte) (h : 0 ∈ buf) (l c : Nat) (he : parse buf = .err l c) :
+    ∃ p back, buf = back.reverse ++ p ∧ 0 ∉ back ∧ ErrAt buf l p ∧
+      JsonCode.syntaxError (back.length + 1) l back = .ok (l, c) := by
+  have hpost := parseRaw_post buf h
+  rw [parse_eq_raw] at he
+  cases hr : parseRaw buf with
+  | ok v => rw [hr] at he; cases he
+  | fail l' p =>
+    rw [hr] at he hpost
+    simp only [PRes.err.injEq] at he
+    obtain ⟨back, hb, h0, hc⟩ := translated_column buf l' p hpost
+    refine ⟨p, back, hb, h0, ?_, ?_⟩
+    · rw [← he.1]; exact parseRaw_exact buf h l' p hr
+    · rw [← he.1, ← he.2]; exact hc
+  | oob => rw [hr] at he; cases he
+  | nofuel => rw [hr] at he; cases he
+
+/-- where the tokenizer gives up (first class of `error_pos_exact`): after the white space either at the first byte of
+    the token - a byte that cannot start a token, or a `t` / `f` / `n` that does not start `true` / `false` / `null`;
+    the line is the line of that byte - or inside a string literal, at the cursor where the string loop stops -/
+theorem tokenizer_error_cursor (line : Nat) (r : List Byte) (l : Nat) (p : List Byte) (h : readToken line r = .fail l p) :
+    ∃ line1 t, skipSpace line r = .ok (line1, t) ∧
+      ((t = p ∧ l = line1 ∧ t.head? ≠ some 34) ∨
+       (∃ r', t = 34 :: r' ∧ readStr r'.length line1 [] r' = .fail l p)) :=
+  readToken_fail_cases line r l p h
+
+-- `[1 x]`: the token `x` cannot start a token: error at its first byte (offset 3, column 4)
+example : parseRaw [91, 49, 32, 120, 93, 0] = .fail 1 [120, 93, 0] := by rfl
+example : ErrAt [91, 49, 32, 120, 93, 0] 1 [120, 93, 0] :=
+  .tokenizer 1 [32, 120, 93, 0] ⟨[49, 91], by simp, by simp, by simp, by simp [breaksR], by simp⟩ (by rfl)
+-- `[1 2]`: the token `2` is complete but not `,` / `]`: error immediately behind it (column 5)
+example : parse [91, 49, 32, 50, 93, 0] = .err 1 5 := by rfl
 
 end Nstd.Json
